@@ -152,6 +152,9 @@ def main():
         for k in ("smt.random_seed", "sat.random_seed", "nlsat.seed"):
             z3.set_param(k, int(os.environ["VERIF_Z3_SEED"]))
     chk = harness.Check(pid, tier, seed, getattr(mod, "REPLAYERS", {}))
+    import gc
+
+    gc.disable()  # cyclic garbage is collected by the main thread only, between cells (engine/real.py: main_thread_gc)
     try:
         code = mod.run(chk, only=a.only)
     except harness.StopEarly as e:
